@@ -138,7 +138,9 @@ def load_known(prop: str) -> tuple[list[dict], list[str]]:
 def finish(ctx: Context, started: float, seed: int, explanation: str, assumptions: list[str], extra: dict) -> int:
     """Write evidence, print the verdict lines, return the exit code."""
     known, fixed = load_known(ctx.prop)
-    evdir = os.path.join(VERIF, 'evidence')
+    evdir = os.environ.get('VERIF_EVIDENCE_DIR') or (
+        os.path.join(VERIF, 'evidence') if ctx.prog.root == '/repo' else os.path.join('/tmp', 'fv-scratch-evidence')
+    )  # evidence under /verif is only ever written from runs against /repo itself
     os.makedirs(os.path.join(evdir, 'replay'), exist_ok=True)
     # clear stale replay files of this property
     for fn in os.listdir(os.path.join(evdir, 'replay')):
